@@ -300,6 +300,7 @@ type outReq struct {
 	form   url.Values
 	query  url.Values
 	auth   string // Authorization header
+	cookie string // Cookie header: the sending client's jar holds "c20jar=<client number>"
 }
 
 func (w *world) logOut(req *http.Request, raw []byte) {
@@ -308,6 +309,7 @@ func (w *world) logOut(req *http.Request, raw []byte) {
 	o.form, _ = url.ParseQuery(string(raw))
 	o.query = req.URL.Query()
 	o.auth = req.Header.Get("Authorization")
+	o.cookie = req.Header.Get("Cookie")
 	if a := o.form.Get("client_assertion"); a != "" {
 		o.aud = 90
 		if p := opfix.JWTPayload(a); p != nil {
@@ -336,6 +338,20 @@ func (w *world) outSince(n int) []outReq {
 	w.outMu.Lock()
 	defer w.outMu.Unlock()
 	return append([]outReq(nil), w.outlog[n:]...)
+}
+
+// checkCookies: every request the call of a holder of client c sent since `since` carries exactly that client's
+// session cookie (none if the client has no jar); a foreign cookie is remembered for the rest of the run.
+func (w *world) checkCookies(c, since int) {
+	want := ""
+	if w.cfg.jar[c] {
+		want = fmt.Sprint("c20jar=", c)
+	}
+	for _, o := range w.outSince(since) {
+		if o.cookie != want {
+			w.foreignCookie.Store(true)
+		}
+	}
 }
 
 func (w *world) outLen() int {
@@ -508,6 +524,7 @@ type worldCfg struct {
 	spare    bool // option slices have spare capacity
 	cfgStyle int  // Endpoint.AuthStyle of the caller's oauth2.Config
 	audHas   bool // storage-owned device state: audience already contains the client id
+	sharedRT bool // the three http.Clients share ONE Transport value (they still differ in Jar / Timeout / CheckRedirect)
 	debugLog bool // the caller's loggers (provider logger, legacy fallback logger) are enabled at debug level
 	srvOpt   int  // further server options in the caller's slice: 1 WithServerCORSOptions(the caller's *cors.Options), 2 WithHTTPMiddleware, 3 both
 	sigAlg   int  // index into sigAlgs: the signing algorithm of every OP of this world (0 = the default ES256)
@@ -530,6 +547,7 @@ type world struct {
 	optCache  map[string]op.Option
 	bounce    atomic.Bool
 	bounced   atomic.Int64
+	foreignCookie atomic.Bool // a request went out with the session cookie of ANOTHER caller's client
 	// fault injection (race tier)
 	jwksMode   atomic.Int32
 	errMode    atomic.Int32
@@ -616,11 +634,18 @@ func newWorld(cfg worldCfg) *world {
 	w.clients[2] = &http.Client{}
 	for i, c := range w.clients {
 		c.Transport = w.rts[i]
+		if cfg.sharedRT {
+			c.Transport = w.rts[0]
+		}
 		if cfg.stop[i] {
 			c.CheckRedirect = stopRedirect
 		}
 		if cfg.jar[i] {
 			c.Jar, _ = cookiejar.New(nil)
+			for _, iss := range []string{opfix.Issuer, issuer2} { // the caller's session cookie for the OPs
+				u, _ := url.Parse(iss)
+				c.Jar.SetCookies(u, []*http.Cookie{{Name: "c20jar", Value: fmt.Sprint(i), Path: "/"}})
+			}
 		}
 		if cfg.timeout[i] {
 			c.Timeout = 5 * time.Second
